@@ -1,7 +1,7 @@
 (* C02 x C08 non-vacuity: a C08 history in real time, its view, and WrapConnection over it. *)
 From CJ Require Import Common.Base.
 From CJ Require C08.Model.
-From CJ Require Import C02.Model C02.Spec C02.Bridge08 C02.Sim08 C02.PropsBridge.
+From CJ Require Import C02.Model C02.Spec C02.Bridge08 C02.Sim08 C02.ModelConn C02.ConnGen C02.BridgeConn08 C02.PropsBridge.
 
 Definition enc_ex (id : R.ident) : bytes := lcg_bytes (tr_code (fst id) + 10 * snd id) 32.
 Definition name_ex (k : R.regkey) : N := 100 * R.k_ph k + R.k_secret k.
@@ -50,3 +50,47 @@ Example ex_translate_view :
   map fst (get_regs (run (translate enc_ex name_ex params_ex h_ex)) 1) = [tagA_ex] /\
   map fst (view_of enc_ex name_ex params_ex (R.run h_ex) 1) = [tagA_ex].
 Proof. vm_compute. auto. Qed.
+
+(* ---- connection level over real time: the same registrations, one open connection to phantom 1 *)
+Definition no_reveal (k : N) (c : bytes) : option bytes := None.
+Definition no_mark (id rep : bytes) : bytes := lcg_bytes 1 16.
+Definition no_hs (id d : bytes) : bool := false.
+Definition chx : choice := {| ch_torder := [TMin; TObfs4; TPrefix]; ch_porder := []; ch_oorder := [] |}.
+Notation rt_run_ex := (rt_run enc_ex name_ex params_ex no_reveal no_mark no_hs [] []).
+Definition G (o : R.rop) : gev R.rop := GReg R.rop o.
+Definition flightB_ex : bytes := tagB_ex ++ [9; 9].
+
+(* B (validated, never used) is 4 minutes old when the connection arrives and sends 10 bytes; 7 more minutes pass and the
+   sweeper runs while the connection is still being classified; the rest of B's genuine flight arrives afterwards: no match *)
+Definition c_ex : list (gev R.rop) :=
+  [G (R.TrackNX kB); G (R.Validate kB); G (R.Advance (4 * minute)); GAccept R.rop; GRead R.rop (take 10 flightB_ex) chx;
+   G (R.Advance (7 * minute)); G R.Sweep; GRead R.rop (drop 10 flightB_ex) chx].
+Example ex_rt_conn_expired_while_classifying :
+  snd (rt_run_ex 1 c_ex) = CReading flightB_ex [TObfs4; TPrefix] /\
+  snd (rt_run_ex 1 (removelast (removelast (removelast c_ex)) ++ [GRead R.rop (drop 10 flightB_ex) chx]))
+  = CMatched TMin (info name_ex params_ex kB) 32 flightB_ex.
+Proof. vm_compute. auto. Qed.
+(* A carried a connection before (MarkActive): 11 minutes old at the sweep, still alive, matched, within its lifetime *)
+Definition c_ex2 : list (gev R.rop) :=
+  map G h_ex ++ [GAccept R.rop; GRead R.rop (take 5 tagA_ex) chx; G R.Sweep; GRead R.rop (drop 5 tagA_ex) chx].
+Example ex_rt_conn_used_survives :
+  snd (rt_run_ex 1 c_ex2) = CMatched TMin (info name_ex params_ex kA) 32 tagA_ex.
+Proof. vm_compute. reflexivity. Qed.
+(* the hypothesis of the two connection-level theorems is met by this history *)
+Example ex_rt_conn_theorems_apply :
+  (exists pre chunk ch post buf poss,
+      c_ex2 = pre ++ GRead R.rop chunk ch :: post /\
+      snd (rt_run_ex 1 pre) = CReading buf poss /\ tagA_ex = buf ++ chunk /\ mem_tk TMin poss = true /\
+      carried_rt enc_ex name_ex params_ex no_reveal no_mark no_hs [] [] (rt_ops pre) 1 TMin tagA_ex 32 (info name_ex params_ex kA)) /\
+  (exists pre chunk ch post,
+      c_ex2 = pre ++ GRead R.rop chunk ch :: post /\
+      forall h0 tl, rt_ops pre = h0 ++ R.Sweep :: tl -> no_time tl ->
+        exists k a u, R.k_ph k = 1 /\ info name_ex params_ex kA = info name_ex params_ex k /\
+          R.ghost (rt_ops pre) k = Some (a, u) /\ (a <= R.ten_min \/ (u = true /\ a <= R.six_h))).
+Proof.
+  split.
+  - exact (C02_rt_conn_match_is_registered_at_match_step enc_ex name_ex params_ex no_reveal no_mark no_hs [] [] 1 c_ex2
+             TMin (info name_ex params_ex kA) 32 tagA_ex ex_rt_conn_used_survives).
+  - exact (C02_rt_conn_match_within_lifetime enc_ex name_ex params_ex no_reveal no_mark no_hs [] [] 1 c_ex2
+             TMin (info name_ex params_ex kA) 32 tagA_ex ex_rt_conn_used_survives).
+Qed.
